@@ -238,6 +238,25 @@ func checkHandlers(l *core.Ledger, rules map[string]string) {
 					return true
 				})
 				if r, ok := rules["H3"]; ok {
+					// the wrapper releases exactly once, at its own end: any other Release in it (in the send
+					// closure of a stream handler, before the implementation call) gives the connection
+					// up at a point the implementation did not choose
+					nRelease := 0
+					var extraPos token.Pos
+					ast.Inspect(h.lit.Body, func(nd ast.Node) bool {
+						if ce, ok := nd.(*ast.CallExpr); ok && selectorOn(info, ce.Fun, ctx, "Release") {
+							nRelease++
+							if nRelease > 1 || deferIdx < 0 {
+								extraPos = ce.Pos()
+							}
+						}
+						return true
+					})
+					if deferIdx >= 0 && nRelease > 1 {
+						l.Bad(r, key+"/releases-once", extraPos, fmt.Sprintf("the generated handler wrapper calls ctx.Release() at %d places besides its deferred one (e.g. inside the send function of a server-stream handler): the connection is released while the implementation is still running and has not asked for it - the next request's handler starts before the previous one returned or called Release", nRelease-1))
+					} else {
+						l.OK(r, key+"/releases-once", h.lit.Pos(), "the wrapper's only Release is the deferred one")
+					}
 					l.Check(deferIdx >= 0 && implIdx > deferIdx && implCount == 1, r, key, h.lit.Pos(), "defer ctx.Release() before the single call of the implementation",
 						fmt.Sprintf("handler does not defer ctx.Release() before calling the implementation (defer at statement %d, implementation call at %d, %d implementation calls): a handler that returns (or panics) without releasing stalls every later request of its connection", deferIdx, implIdx, implCount))
 				}
